@@ -54,6 +54,8 @@ type Proxy struct {
 	h1clients    []*peers.H1Client
 	h1ups        []*peers.H1Upstream
 	dialMu       sync.Mutex
+	probe        []*peers.ReqRec
+	probeCl      *peers.XClient
 	hostAddrs    []string
 	lisAddr      string
 	hostMode     map[string]int // 0 accept, 1 refuse, 2 blackhole
@@ -400,7 +402,93 @@ func (w *Proxy) quiescent() {
 	}
 }
 
+// final runs at the idle point: idle-state oracles first, then the capacity
+// probe (C09: capacity freed by finished, failed or refused requests is available
+// again), then the history oracles.
 func (w *Proxy) final() {
+	w.checkC09Idle()
+	w.checkC10Idle()
+	if k := w.probeSize(); k > 0 {
+		w.startProbe(k)
+		w.S.After(3*time.Second, "probe-check", func() { w.checkProbe(k); w.finish() })
+		return
+	}
+	w.finish()
+}
+
+func (w *Proxy) probeSize() int {
+	p := w.P
+	for _, m := range w.hostMode {
+		if m != 0 {
+			return 0 // a refusing host would fail probe requests for reasons unrelated to capacity
+		}
+	}
+	if len(w.S.Violations) > 0 {
+		return 0
+	}
+	k := p.MaxReqs
+	if p.Proto == "http1" && p.MaxConns > 0 && (k == 0 || p.MaxConns < k) {
+		k = p.MaxConns
+	}
+	return k
+}
+
+func (w *Proxy) startProbe(k int) {
+	s := w.S
+	s.Logf("capacity probe: %d concurrent requests", k)
+	w.probe = nil
+	for i := 0; i < k; i++ {
+		tok := fmt.Sprintf("%016x", sim.Mix(s.Ch.Seed^0x70726f6265, uint64(i)))
+		r := &peers.ReqRec{ID: uint64(9000 + i), Token: tok, Extra: map[string]string{"probe": "1"}, Script: []peers.Action{{Kind: "reply", Delay: 5 * time.Millisecond}}}
+		if w.P.Proto == "http1" {
+			m := &peers.H1Msg{IsReq: true, Method: "POST", Target: "/probe", Body: []byte(tok),
+				Headers: []peers.KV{{K: "Host", V: "svc.test"}, {K: "X-Tok", V: tok}, {K: "User-Agent", V: "verif/1"}, {K: "Content-Type", V: "application/x-verif"}}}
+			r.Method, r.Target, r.HReq = m.Method, m.Target, m
+			r.Frame = peers.BuildH1(m)
+			w.H.Add(r)
+			cl := peers.NewH1Client(s, w.H, fmt.Sprintf("probe%d", i))
+			cl.Connect = func() *sim.Conn { return w.N.Connect(w.lisAddr, cl.Name, cl) }
+			w.h1clients = append(w.h1clients, cl)
+			cl.Enqueue(r)
+		} else {
+			f := &peers.XFrame{IsReq: true, ID: r.ID, Class: "com.verif.Req", Body: []byte(tok), Headers: []peers.KV{{K: "service", V: "svc0"}, {K: "tok", V: tok}}}
+			r.Frame = w.codec.Build(f)
+			r.Extra["ptimeout"] = "0"
+			w.H.Add(r)
+			if w.probeCl == nil {
+				w.probeCl = peers.NewXClient(s, w.H, w.codec, "probe")
+				w.probeCl.Conn = w.N.Connect(w.lisAddr, "probe", w.probeCl)
+				w.clients = append(w.clients, w.probeCl)
+			}
+			w.probeCl.SendReq(r)
+		}
+		w.probe = append(w.probe, r)
+	}
+}
+
+func (w *Proxy) checkProbe(k int) {
+	for _, r := range w.probe {
+		// whose reply it is, is the business of C02; a timeout is the business of C03.
+		// Here: was the request refused for lack of capacity (overflow status)?
+		overflow := false
+		if len(r.Replies) >= 1 {
+			st := r.Replies[0].Status
+			if w.P.Proto == "http1" {
+				overflow = st == 503
+			} else {
+				overflow = r.Replies[0].Tok == "" && st == 4 // bolt: server thread pool busy
+			}
+		}
+		if !overflow {
+			continue
+		}
+		w.S.Violate("C09", "capacity_not_restored", "at idle, %d concurrent fresh requests (max_requests=%d max_connections=%d) must all be admitted, but probe req#%d was refused with the overflow status %d", k, w.P.MaxReqs, w.P.MaxConns, r.Idx, r.Replies[0].Status)
+		return
+	}
+	w.Stats["capacity_probes"]++
+}
+
+func (w *Proxy) finish() {
 	w.finished = true
 	if w.N.DialsRefused > 0 {
 		w.S.Faults["connect_refused"] += w.N.DialsRefused
